@@ -815,7 +815,7 @@ fn lower_expr(ctx: &mut LowerCtx, node: cst::Expr) -> Option<ast::Expr> {
 fn lower_expr_with_args(
     ctx: &mut LowerCtx,
     node: cst::Expr,
-    trailing_args: Vec<ast::Expr>,
+    trailing_args: Vec<Trailing>,
 ) -> Option<ast::Expr> {
     let node_range = node.syntax().text_range();
     let node_astptr = MySyntaxNodePtr::new(node.syntax());
@@ -1152,12 +1152,7 @@ fn lower_expr_with_args(
                                 args,
                                 astptr,
                             };
-                            apply_trailing_args(
-                                ctx,
-                                constr,
-                                trailing_args,
-                                Some(it.syntax().text_range()),
-                            )
+                            Some(apply_trailing_args(constr, trailing_args))
                         } else {
                             let path_expr = ast::Expr::EPath {
                                 path: constructor,
@@ -1168,54 +1163,33 @@ fn lower_expr_with_args(
                                 args,
                                 astptr,
                             };
-                            apply_trailing_args(
-                                ctx,
-                                call,
-                                trailing_args,
-                                Some(it.syntax().text_range()),
-                            )
+                            Some(apply_trailing_args(call, trailing_args))
                         }
                     }
                     other => {
-                        if matches!(&other, cst::Expr::CallExpr(_) | cst::Expr::ClosureExpr(_)) {
+                        let is_postfix = match &other {
+                            cst::Expr::CallExpr(_) | cst::Expr::ClosureExpr(_) => true,
+                            cst::Expr::BinaryExpr(bin_expr) => matches!(
+                                bin_expr.op().map(|tok| tok.kind()),
+                                Some(MySyntaxKind::Dot)
+                            ),
+                            _ => false,
+                        };
+                        if is_postfix && !receiver_starts_with_prefix(&other) {
                             let func_expr = lower_expr(ctx, other)?;
                             let call = ast::Expr::ECall {
                                 func: Box::new(func_expr),
                                 args,
                                 astptr,
                             };
-                            apply_trailing_args(
-                                ctx,
-                                call,
-                                trailing_args,
-                                Some(it.syntax().text_range()),
-                            )
-                        } else if let cst::Expr::BinaryExpr(bin_expr) = &other {
-                            if matches!(
-                                bin_expr.op().map(|tok| tok.kind()),
-                                Some(MySyntaxKind::Dot)
-                            ) {
-                                let func_expr = lower_expr(ctx, other)?;
-                                let call = ast::Expr::ECall {
-                                    func: Box::new(func_expr),
-                                    args,
-                                    astptr,
-                                };
-                                apply_trailing_args(
-                                    ctx,
-                                    call,
-                                    trailing_args,
-                                    Some(it.syntax().text_range()),
-                                )
-                            } else {
-                                let mut combined_args = args;
-                                combined_args.extend(trailing_args);
-                                lower_expr_with_args(ctx, other, combined_args)
-                            }
+                            Some(apply_trailing_args(call, trailing_args))
                         } else {
-                            let mut combined_args = args;
-                            combined_args.extend(trailing_args);
-                            lower_expr_with_args(ctx, other, combined_args)
+                            // The callee is (or its receiver chain starts at) a prefix operator, a
+                            // parenthesised expression or something that cannot be called: hand the
+                            // call down; it is applied where the chain really starts.
+                            let mut combined = vec![Trailing::Call { args, astptr }];
+                            combined.extend(trailing_args);
+                            lower_expr_with_args(ctx, other, combined)
                         }
                     }
                 };
@@ -1469,18 +1443,27 @@ fn lower_expr_with_args(
                 .cloned()
                 .expect("paths must contain at least one segment");
             if ctx.is_constructor(&variant_ident) {
+                // `!Some(x)`: the constructor's argument list arrives as a pending call
+                let mut trailing_args = trailing_args;
+                let args = match trailing_args.first() {
+                    Some(Trailing::Call { .. }) => match trailing_args.remove(0) {
+                        Trailing::Call { args, .. } => args,
+                        _ => unreachable!(),
+                    },
+                    _ => vec![],
+                };
                 let expr = ast::Expr::EConstr {
                     constructor,
-                    args: vec![],
+                    args,
                     astptr,
                 };
-                apply_trailing_args(ctx, expr, trailing_args, Some(it.syntax().text_range()))
+                Some(apply_trailing_args(expr, trailing_args))
             } else {
                 let expr = ast::Expr::EPath {
                     path: constructor,
                     astptr,
                 };
-                apply_trailing_args(ctx, expr, trailing_args, Some(it.syntax().text_range()))
+                Some(apply_trailing_args(expr, trailing_args))
             }
         }
         cst::Expr::TupleExpr(it) => {
@@ -1496,17 +1479,17 @@ fn lower_expr_with_args(
             Some(ast::Expr::ETuple { items, astptr })
         }
         cst::Expr::ParenExpr(it) => {
-            // Parenthesized expression - just unwrap and process the inner expression
-            let inner = it
-                .expr()
-                .and_then(|expr| lower_expr_with_args(ctx, expr, trailing_args))?;
-            Some(inner)
+            // Parenthesized expression - unwrap the inner expression. Parentheses end the
+            // re-association of postfix operations: pending ones apply to the whole expression.
+            let inner = it.expr().and_then(|expr| lower_expr(ctx, expr))?;
+            Some(apply_trailing_args(inner, trailing_args))
         }
         cst::Expr::PrefixExpr(it) => {
             let astptr = MySyntaxNodePtr::new(it.syntax());
+            // postfix operations bind tighter than the prefix operator: they go to the operand
             let expr = match it
                 .expr()
-                .and_then(|expr| lower_expr_with_args(ctx, expr, Vec::new()))
+                .and_then(|expr| lower_expr_with_args(ctx, expr, trailing_args))
             {
                 Some(expr) => expr,
                 None => {
@@ -1543,7 +1526,7 @@ fn lower_expr_with_args(
                     return None;
                 }
             };
-            apply_trailing_args(ctx, unary, trailing_args, Some(it.syntax().text_range()))
+            Some(unary)
         }
         cst::Expr::BinaryExpr(it) => {
             let astptr = MySyntaxNodePtr::new(it.syntax());
@@ -1562,7 +1545,6 @@ fn lower_expr_with_args(
                 );
                 return None;
             };
-            let lhs = lower_expr_with_args(ctx, lhs_cst, Vec::new())?;
             let Some(op_token) = it.op() else {
                 ctx.push_error(
                     Some(it.syntax().text_range()),
@@ -1570,6 +1552,66 @@ fn lower_expr_with_args(
                 );
                 return None;
             };
+            if op_token.kind() == MySyntaxKind::Dot {
+                // `-g(x).h` is parsed as `(-g(x)).h`: hand `.h` down to the operand of the prefix
+                let forward = receiver_starts_with_prefix(&lhs_cst);
+                let lhs = if forward {
+                    None
+                } else {
+                    Some(lower_expr(ctx, lhs_cst.clone())?)
+                };
+                let access = match rhs_cst {
+                    cst::Expr::IntExpr(int_expr) => {
+                        let Some(token) = int_expr.value() else {
+                            ctx.push_error(
+                                Some(int_expr.syntax().text_range()),
+                                "Tuple projection missing index",
+                            );
+                            return None;
+                        };
+                        let text = token.to_string();
+                        let index = match text.parse::<usize>() {
+                            Ok(index) => index,
+                            Err(_) => {
+                                ctx.push_error(
+                                    Some(token.text_range()),
+                                    format!("Invalid tuple index: {}", text),
+                                );
+                                return None;
+                            }
+                        };
+                        Trailing::Proj { index, astptr }
+                    }
+                    cst::Expr::IdentExpr(ident_expr) => {
+                        let Some(token) = ident_expr.path().and_then(|p| p.ident_tokens().last())
+                        else {
+                            ctx.push_error(
+                                Some(ident_expr.syntax().text_range()),
+                                "Field access missing name",
+                            );
+                            return None;
+                        };
+                        Trailing::Field {
+                            field: ast::AstIdent(token.to_string()),
+                            astptr,
+                        }
+                    }
+                    other => {
+                        ctx.push_error(
+                            Some(other.syntax().text_range()),
+                            "Unsupported field access expression",
+                        );
+                        return None;
+                    }
+                };
+                let mut combined = vec![access];
+                combined.extend(trailing_args);
+                return match lhs {
+                    Some(lhs) => Some(apply_trailing_args(lhs, combined)),
+                    None => lower_expr_with_args(ctx, lhs_cst, combined),
+                };
+            }
+            let lhs = lower_expr_with_args(ctx, lhs_cst, Vec::new())?;
             match op_token.kind() {
                 MySyntaxKind::Plus => {
                     let rhs = lower_expr_with_args(ctx, rhs_cst, trailing_args)?;
@@ -1679,65 +1721,6 @@ fn lower_expr_with_args(
                         astptr,
                     })
                 }
-                MySyntaxKind::Dot => match rhs_cst {
-                    cst::Expr::IntExpr(int_expr) => {
-                        let Some(token) = int_expr.value() else {
-                            ctx.push_error(
-                                Some(int_expr.syntax().text_range()),
-                                "Tuple projection missing index",
-                            );
-                            return None;
-                        };
-                        let text = token.to_string();
-                        let index = match text.parse::<usize>() {
-                            Ok(index) => index,
-                            Err(_) => {
-                                ctx.push_error(
-                                    Some(token.text_range()),
-                                    format!("Invalid tuple index: {}", text),
-                                );
-                                return None;
-                            }
-                        };
-                        Some(ast::Expr::EProj {
-                            tuple: Box::new(lhs),
-                            index,
-                            astptr,
-                        })
-                    }
-                    cst::Expr::IdentExpr(ident_expr) => {
-                        let Some(token) = ident_expr.path().and_then(|p| p.ident_tokens().last())
-                        else {
-                            ctx.push_error(
-                                Some(ident_expr.syntax().text_range()),
-                                "Field access missing name",
-                            );
-                            return None;
-                        };
-                        let field = ast::AstIdent(token.to_string());
-                        let field_expr = ast::Expr::EField {
-                            expr: Box::new(lhs),
-                            field,
-                            astptr: MySyntaxNodePtr::new(it.syntax()),
-                        };
-                        if trailing_args.is_empty() {
-                            Some(field_expr)
-                        } else {
-                            Some(ast::Expr::ECall {
-                                func: Box::new(field_expr),
-                                args: trailing_args,
-                                astptr,
-                            })
-                        }
-                    }
-                    other => {
-                        ctx.push_error(
-                            Some(other.syntax().text_range()),
-                            "Unsupported field access expression",
-                        );
-                        None
-                    }
-                },
                 kind => {
                     let message = if trailing_args.is_empty() {
                         format!("Unsupported binary operator: {:?}", kind)
@@ -1799,92 +1782,66 @@ fn lower_expr_with_args(
     }
 }
 
-fn apply_trailing_args(
-    ctx: &mut LowerCtx,
-    expr: ast::Expr,
-    trailing_args: Vec<ast::Expr>,
-    range: Option<TextRange>,
-) -> Option<ast::Expr> {
-    if trailing_args.is_empty() {
-        return Some(expr);
-    }
+/// A postfix operation (`(args)`, `.field`, `.0`) that still has to be attached to the
+/// expression it applies to. The parser gives `(` a lower binding power than the prefix
+/// operators, so `-f(x).y` arrives as `((-f)(x)).y`; lowering hands the postfix operations
+/// down to the operand of the prefix operator, which yields `-(f(x).y)`.
+enum Trailing {
+    Call {
+        args: Vec<ast::Expr>,
+        astptr: MySyntaxNodePtr,
+    },
+    Field {
+        field: ast::AstIdent,
+        astptr: MySyntaxNodePtr,
+    },
+    Proj {
+        index: usize,
+        astptr: MySyntaxNodePtr,
+    },
+}
 
-    match expr {
-        ast::Expr::EPath { path, astptr } => Some(ast::Expr::ECall {
-            func: Box::new(ast::Expr::EPath { path, astptr }),
-            args: trailing_args,
-            astptr,
-        }),
-        ast::Expr::ECall { func, args, astptr } => {
-            let mut result = ast::Expr::ECall { func, args, astptr };
-            for arg in trailing_args {
-                let call_astptr = match &result {
-                    ast::Expr::ECall { astptr, .. } => *astptr,
-                    _ => unreachable!(),
-                };
-                result = ast::Expr::ECall {
-                    func: Box::new(result),
-                    args: vec![arg],
-                    astptr: call_astptr,
-                };
-            }
-            Some(result)
+/// Does the receiver chain of a postfix operation (callee of a call, left side of `.`) start
+/// at a prefix operator that is not protected by parentheses?
+fn receiver_starts_with_prefix(node: &cst::Expr) -> bool {
+    match node {
+        cst::Expr::PrefixExpr(_) => true,
+        cst::Expr::CallExpr(call) => support::child::<cst::Expr>(call.syntax())
+            .is_some_and(|callee| receiver_starts_with_prefix(&callee)),
+        cst::Expr::BinaryExpr(bin)
+            if matches!(bin.op().map(|tok| tok.kind()), Some(MySyntaxKind::Dot)) =>
+        {
+            bin.exprs()
+                .next()
+                .is_some_and(|lhs| receiver_starts_with_prefix(&lhs))
         }
-        ast::Expr::EConstr {
-            constructor,
-            mut args,
-            astptr,
-        } => {
-            args.extend(trailing_args);
-            Some(ast::Expr::EConstr {
-                constructor,
+        _ => false,
+    }
+}
+
+/// Apply pending postfix operations to `expr`, innermost first.
+fn apply_trailing_args(expr: ast::Expr, trailing_args: Vec<Trailing>) -> ast::Expr {
+    let mut result = expr;
+    for trailing in trailing_args {
+        result = match trailing {
+            Trailing::Call { args, astptr } => ast::Expr::ECall {
+                func: Box::new(result),
                 args,
                 astptr,
-            })
-        }
-        ast::Expr::EField {
-            expr,
-            field,
-            astptr,
-        } => Some(ast::Expr::ECall {
-            func: Box::new(ast::Expr::EField {
-                expr,
+            },
+            Trailing::Field { field, astptr } => ast::Expr::EField {
+                expr: Box::new(result),
                 field,
                 astptr,
-            }),
-            args: trailing_args,
-            astptr,
-        }),
-        ast::Expr::EBinary {
-            op,
-            lhs,
-            rhs,
-            astptr,
-        } => {
-            let rhs = apply_trailing_args(ctx, *rhs, trailing_args, range)?;
-            Some(ast::Expr::EBinary {
-                op,
-                lhs,
-                rhs: Box::new(rhs),
+            },
+            Trailing::Proj { index, astptr } => ast::Expr::EProj {
+                tuple: Box::new(result),
+                index,
                 astptr,
-            })
-        }
-        ast::Expr::EUnary { op, expr, astptr } => {
-            let expr = apply_trailing_args(ctx, *expr, trailing_args, range)?;
-            Some(ast::Expr::EUnary {
-                op,
-                expr: Box::new(expr),
-                astptr,
-            })
-        }
-        other => {
-            ctx.push_error(
-                range,
-                format!("Cannot apply arguments to expression {:?}", other),
-            );
-            None
-        }
+            },
+        };
     }
+    result
 }
 
 fn lower_arg(ctx: &mut LowerCtx, node: cst::Arg) -> Option<ast::Expr> {
